@@ -5,15 +5,16 @@
 // In-process, bounded-exhaustive per type over per-field-kind boundary alphabets (zero / typical / max vectors, every
 // 1-deviation of the typical vector; thorough: every 2-deviation):
 //
-//	(a) decode(encode(x)) == x, re-encode byte-identical, decoder stops exactly behind its own encoding (also when
-//	    foreign bytes precede / follow it); documented asymmetries are counted, not "fixed in the oracle"
-//	(b) canonical bytes of map-carrying records: ALL permutations of map insertion order (|map| <= 4, product over the
-//	    maps of a record) x ALL 8 map-iteration rotations (lib/maporder; exhaustive for one-bucket maps) -> exactly one
-//	    byte string; the re-encoding of the decoded value under all rotations as well
-//	(c) side-chain records under every (network id, ledger height, fork-check flag) regime around EXTRA_INFO_HEIGHT
+//		(a) decode(encode(x)) == x, re-encode byte-identical, decoder stops exactly behind its own encoding (also when
+//		    foreign bytes precede / follow it); documented asymmetries are counted, not "fixed in the oracle"
+//		(b) canonical bytes of map-carrying records: ALL permutations of map insertion order (|map| <= 4, product over the
+//		    maps of a record) x ALL 8 map-iteration rotations (lib/maporder; exhaustive for one-bucket maps) -> exactly one
+//		    byte string; the re-encoding of the decoded value under all rotations as well
+//		(c) side-chain records under every (network id, ledger height, fork-check flag) regime around EXTRA_INFO_HEIGHT
 //
-//   (e) receiver-state independence (receiver.go): decoding B into a receiver that holds A / failed on truncated A /
-//       already holds B gives exactly B
+//	  (e) receiver-state independence (receiver.go): decoding B into a receiver that holds A / failed on truncated A /
+//	      already holds B gives exactly B
+//
 // Child processes (`ulimit -v 4000000`, timeout), deviation-bounded, on representative encodings of every type:
 //
 //	(d) every truncation, every byte x 4 replacement values, and AT EVERY OFFSET a var-uint and a u64 count/length
@@ -487,7 +488,7 @@ func main() {
 		"every type covered by the table; per type: zero / typical / max vector + every 1-deviation of the typical vector over the field-kind alphabets " +
 		"(ints 0,1,0xFC,0xFD,0xFFFF,2^16,2^32-1,2^32,2^64-1; byte strings nil,empty,1,0xFC,0xFD bytes; strings incl. non-UTF8; addresses; big ints to 2^2023; slices 0..3; maps 0..4 entries)" +
 		map[bool]string{false: "", true: " + every 2-deviation and 0xFFFF / 0x10000 byte strings"}[pairs] +
-		; receiver state: decode(encode(B)) into a receiver that decoded another instance A / failed on every truncation of A (fresh and after A) / decoded B already, " +
+		"; receiver state: decode(encode(B)) into a receiver that decoded another instance A / failed on every truncation of A (fresh and after A) / decoded B already, " +
 		"B over the whole value set + 2 colliding instances (maps with overlapping and disjoint key sets), A over zero / typical / max / colliding instances (thorough: all pairs)" +
 		"; canonical: all insertion-order permutations (product over the record's maps) x 8 iteration rotations; side-chain records x 16 (net id, flag, height) regimes; " +
 		"malformed: see mutation_* (child processes under ulimit -v 4000000)"
